@@ -32,9 +32,15 @@ def run_task(name, tier):
     return T.result()
 
 
+IS_NONE = z3.Function('value_is_None', smt.VAL, z3.BoolSort())
+
+
 def _world():
     w = World()
     CS.install(w)
+    # a stored value may be None (a null metadata value is legitimate): `v is None` on an opaque value is decided by a predicate of the value,
+    # both ways are explored
+    w.hooks['is_none'] = lambda it, v: it.wrap(IS_NONE(v.term)) if isinstance(v, SVal) else False
     return w
 
 
